@@ -6,7 +6,8 @@ import json, os, subprocess, sys
 ROOT = os.path.dirname(os.path.dirname(os.path.abspath(__file__)))
 PROPS = {1: ['C08'], 2: ['C08', 'C10'], 3: ['C08', 'C12'], 4: ['C08', 'C11'], 5: ['C08'], 6: ['C08', 'C11', 'C12'], 7: ['C08', 'C13'],
          8: ['C14'], 9: ['C19'], 10: ['C16'], 11: ['C02'], 12: ['C20']}
-res = {}
+rp = os.path.join(ROOT, 'benign', 'RESULTS.json')
+res = json.load(open(rp)) if os.path.exists(rp) and sys.argv[1:] else {}
 ks = [int(x) for x in sys.argv[1:]] or sorted(PROPS)
 for k in ks:
     for p in PROPS[k]:
